@@ -13,6 +13,7 @@ LEVEL_TEXT = (
     "task.wait_until (return, exception at any call, cancellation at any await) every subscription / listener / "
     "decorator manager it acquired has been released, in both subsystems; the temporary manager resolves its future "
     "only after stopping; the 'timeout' and 'none' results exist on the paths the statement names"
+    "; a manager stopped while its start loop is still running starts no further trigger; the state subscription is released for every entity whatever the name order; legacy wait_until satisfies the hold clauses on scripted histories and the new one returns the first event's arguments on both expiry paths"
 )
 LEVEL_NOTE = (
     "assumes: any call outside the reviewed no-raise table may raise, any await may be cancelled; notify_del functions are "
